@@ -2,7 +2,7 @@
 from .. import scriptprop
 
 ID = "C14"
-GEN = ["SlicesShapes.lean", "MapsShapes.lean"]   # regenerated from the source on every run (tie 4B): kernels / call shapes / function shapes
+GEN = ["SlicesShapes.lean", "MapsShapes.lean", "MapSetShapes.lean"]   # regenerated from the source on every run (tie 4B): kernels / call shapes / function shapes
 RULE = ("calls of every helper on lists of length 0..12 over small universes (duplicates), callbacks from the shared position-sensitive family "
         "(acc(s,v)=31s+v+1, v mod m = r, v mod m, equality mod m, converter failing at position j); inputs re-observed after the call and after mutating the result; "
         "the equals family includes a non-symmetric member (a is half of b); non-trivial = list of length >= 2")
@@ -27,6 +27,7 @@ def calls(rng, n, uni):
     out = []
     out.append("fold %s %d" % (L[:60] if n <= 5 else lst(v[:5]), rng.randrange(5)))
     out.append("foldrev %s %d" % (lst(v[:5]), rng.randrange(5)))
+    out.append("exceptnan %s %s" % (lst([rng.choice([7, 7, 1, 2, 3]) for _ in range(rng.randrange(7))]), lst([rng.choice([7, 2, 3, 9]) for _ in range(rng.randrange(4))])))
     out.append("foldpanic %s %d %d" % (lst(v[:5]), rng.randrange(5), rng.randrange(0, 7)))      # the accumulator panics on its k-th call
     out.append("foldrevpanic %s %d %d" % (lst(v[:5]), rng.randrange(5), rng.randrange(0, 7)))
     out += ["map " + L, "maperr %s %d" % (L, rng.randrange(-1, n + 1)), "filter %s %d %d" % (L, m, r), "any %s %d %d" % (L, m, r), "all %s %d %d" % (L, m, r),
